@@ -702,8 +702,8 @@ func init() {
 				c.used[f] = true
 			}
 			cnt := app("splitN", s, sep)
-			arr := c.fresh("splitarr", arrSort(SInt, SStr))
-			c.assumeDef(tForall([][2]string{{"k!s", SInt}}, tEq(tSel(arr, "k!s"), app("splitF", s, sep, "k!s")), tSel(arr, "k!s")))
+			c.used["splitA"] = true
+			arr := app("splitA", s, sep) // canonical backing array: splitA(s,c)[k] == splitF(s,c,k) (specs/00base.spec)
 			c.assumeDef(tGe(cnt, "1"))
 			return Sl{Sc{arr, arrSort(SInt, SStr)}, "0", cnt, tFalse, types.Typ[types.String]}, st2
 		}
